@@ -33,12 +33,13 @@ def n_cases(tier):
 def one_case(rng, tier):
     nodes = [{'id': 'n0', 'op': 'source', 'ups': []}]
     last = 'n0'
-    if rng.random() < 0.3:
+    plain = rng.random() < 0.5          # no arithmetic around the node: elements may be any object, also None / falsy
+    if not plain and rng.random() < 0.5:
         nodes.append({'id': 'm0', 'op': 'map', 'ups': [last], 'f': 'inc'})
         last = 'm0'
     nodes.append({'id': 'lt', 'op': 'latest', 'ups': [last]})
     last = 'lt'
-    if rng.random() < 0.3:
+    if not plain and rng.random() < 0.5:
         nodes.append({'id': 'm1', 'op': 'map', 'ups': [last], 'f': 'ident'})
         last = 'm1'
     g = aprogs.AGen(rng)
@@ -49,7 +50,8 @@ def one_case(rng, tier):
     prog = {'nodes': nodes, 'extra_edges': []}
     prods = []
     for p in range(rng.choice([1, 1, 2, 3])):
-        prods.append([[rng.choice(aprogs.GAP_GRID), 'n0', rng.randrange(50), 1] for _ in range(rng.randrange(1, 8))])
+        prods.append([[rng.choice(aprogs.GAP_GRID + [-1, -2, -3, -4, 0.5, 0.5]), 'n0', (None if plain and rng.random() < 0.15 else rng.randrange(50)), 1]
+                      for _ in range(rng.randrange(1, 8))])
     return {'prog': prog, 'producers': prods, 'awaiting': rng.random() < 0.5}
 
 
